@@ -184,6 +184,8 @@ def dist_scaling(vc, cfg):
                 vc.assume(vc.le(sum(Eq[f, k] * (al[r] * Bq[r, k]) for k in range(dim)) + Eq[f, dim], 0))
         # link between the two callee contracts (same chromatic gamut around the same neutral point): a non-zero row is inside
         # iff its boundary multiple is at least 1
+        if vc.symbolic:
+            vc.trusted("assumed link between two callee contracts of hull_dist_scaling: in_hull(normalized=True) reports a non-zero row inside iff its boundary multiple from alpha_for_B_with_P is >= 1 (same chromatic hull, same neutral point)")
         for r in range(Bq.shape[0]):
             if r != zero_row:
                 vc.assume(vc.and_(vc.implies(vc.gt(mem[r], 0), vc.ge(al[r], 1)), vc.implies(vc.ge(al[r], 1), vc.gt(mem[r], 0))))
